@@ -10,6 +10,7 @@ C_DRIVER = "harness/drivers/c09_driver.c"
 REPO_SOURCES = ["muggle/c/dsaa/avl_tree.c", "muggle/c/dsaa/hash_table.c", "muggle/c/dsaa/trie.c",
                 "muggle/c/memory/memory_pool.c"]
 HEADER_LINES = 1
+LINK_FLAGS = ["-Wl,--wrap=malloc"]       # the driver's malloc switch ("failat j": allocation failure inside insert / put)
 CASE_TIMEOUT = 5.0
 SHRINK_BUDGET = 160
 RULE = ("AVL: every insertion order of 1..7 distinct keys (each followed by a removal order), every removal order "
@@ -25,7 +26,12 @@ RULE = ("AVL: every insertion order of 1..7 distinct keys (each followed by a re
         "full dump + structure walk every N/8 operations (300/450/640 nodes quick; up to 5000 thorough, node pool forced to grow "
         "from 4 / 64); trie keys of 20..80 bytes in every 16th random case; string-keyed table with bytes >= 0x80 in the keys "
         "(kind defb) and table sizes 11/13/1000/10007 with 64-bit hashes; muggle_hash_table_clear (any callbacks) followed by "
-        "reuse.  A case is non-trivial when it contains an accepted insertion and a later accepted removal, rejected "
+        "reuse; ALLOCATION FAILURE as a case-controlled event: node pools that cannot grow (MUGGLE_MEMORY_POOL_CONSTANT_SIZE, "
+        "1..18 nodes) and a malloc switch (--wrap=malloc, 'failat j' = the j-th malloc inside the next insert / put fails): for "
+        "the trie the failure of the j-th new node of a key with L new nodes, every 1 <= j <= L <= 6, by both mechanisms, each "
+        "followed by inserts of other keys (which would receive nodes released by a roll-back), lookups of every prefix and of the "
+        "crossed-over keys, removals and a retry; random histories of all three structures with exhausted pools / armed switch.  "
+        "A case is non-trivial when it contains an accepted insertion and a later accepted removal, rejected "
         "duplicate or successful lookup; distinct = distinct script text")
 TRUSTED_BASE = [
     "pointer structure: heap-level models (ModelHeap.v) of the AVL tree (left/right/parent) and the hash chains "
@@ -40,7 +46,8 @@ ASSUMPTIONS = [
     "second tie: clang 14's AST of the three .c files with -DNDEBUG (MUGGLE_ASSERT empty); plain char is signed (x86-64)",
     "comparator is a strict total order consistent with the hash (keys are int64 / decimal strings in the drivers)",
     "stored values are non-NULL (a NULL value is indistinguishable from 'absent' in the trie API)",
-    "trie keys are NUL-terminated byte strings (bytes 1..255); allocation succeeds",
+    "trie keys are NUL-terminated byte strings (bytes 1..255); allocation succeeds unless the case injects a failure (constant-size "
+    "pool exhausted, malloc switch); clean-up of a failed call (no leak, C18) is observed only as 'LEAK user blocks' / ASan",
     "remove is given a node obtained from find on the same container (the documented usage)",
     "a NULL free callback means the data is borrowed: the library must neither release nor keep it; the driver releases it",
     "the comparator is any function whose SIGN is the order (its magnitude is varied per case)",
@@ -111,6 +118,15 @@ EVIDENCE_NOTES = [
     "cleared whatever the callbacks are; a guard on the callbacks in front of the unlink makes the outcome depend on a fact the "
     "tie does not have and breaks the obligation).  The audit's edit E2 (node->data = NULL moved under if (func_free)) and the "
     "sibling guards in hash_table_remove / avl erase_node are reported with a failing input (corpus-*-null-callback*)",
+    "ALLOCATION FAILURE (round-6 seed C09-12): Model.v has operations with an allocation oracle (opa, *_step_o; the trie's "
+    "ins_walk_o leaves the nodes created before the failing allocation in place, as the unchanged code does); PROVED "
+    "(ProofsAlloc.v): avl_/ht_refines_map_under_alloc_failure (a failed insert reports failure and changes nothing; every "
+    "history answers like the map), trie_insert_under_alloc_failure (success = the failure-free insert, failure leaves EVERY "
+    "lookup unchanged, a budget covering the key cannot fail), trie_refines_map_under_alloc_failure (histories: the map that "
+    "follows the reported results; nothing fails where no failure is injected).  The model driver derives the oracle from the "
+    "case (pool capacity minus the model's node count; 'failat j'), so the differential run pins WHICH insert fails; the "
+    "monitor accepts a reported failure only where one was injected and then requires the map view for every later operation.  "
+    "The heap-level models and the slicer ties assume successful allocation (the failure branches are not sliced)",
     "observation (not a violation, outside the operation alphabet insert/find/remove): muggle_avl_tree_clear releases the nodes "
     "but leaves tree->root dangling on the unchanged tree, so any operation after it is a use-after-free; the drivers therefore "
     "do NOT issue clear on the tree.  muggle_hash_table_clear + reuse is driven and modelled (passes on the unchanged tree); the "
@@ -248,8 +264,8 @@ def _bfs_keys(shape, scale=10):
 CMPS = ["sgn", "diff", "big", "m256"]
 
 
-def _avl_case(name, cap, ops, cmpk=None):
-    return V.Case(name, ["avl %d" % cap + (" " + cmpk if cmpk else "")] + ops, {"kind": "avl"})
+def _avl_case(name, cap, ops, cmpk=None, const=False):
+    return V.Case(name, ["avl %d" % cap + (" " + cmpk if cmpk else "") + (" const" if const else "")] + ops, {"kind": "avl"})
 
 
 def _flags(rng, n=2):
@@ -268,7 +284,9 @@ def _perm_ops(ins_order, rem_order, scale=10, finds=True):
     return ops
 
 
-def _rand_avl(rng, name, R, nops, cap, extreme=False):
+def _rand_avl(rng, name, R, nops, cap, extreme=False, fail=False):
+    """fail: allocation failures -- with a pool it cannot grow (const), without one the malloc switch is set
+    before some inserts"""
     ops, vi = [], 0
     keys = list(range(-R // 2, R - R // 2))
     if extreme:
@@ -278,12 +296,14 @@ def _rand_avl(rng, name, R, nops, cap, extreme=False):
         c = rng.below(100)
         if c < 45:
             vi += 1
+            if fail and cap == 0 and rng.chance(1, 4):
+                ops.append("failat 1")
             ops.append("ins %d %d" % (k, 100000 + vi))
         elif c < 80:
             ops.append("rem %d%s" % (k, _flags(rng)))
         else:
             ops.append("find %d" % k)
-    return _avl_case(name, cap, ops, rng.choice(CMPS + [None, None]))
+    return _avl_case(name, cap, ops, rng.choice(CMPS + [None, None]), const=(fail and cap > 0))
 
 
 def _big_avl(rng, name, N, cap):
@@ -311,11 +331,12 @@ def _big_avl(rng, name, N, cap):
     return _avl_case(name, cap, ops, rng.choice(CMPS))
 
 
-def _ht_case(name, cap, size, kind, ops, cmpk=None):
-    return V.Case(name, ["ht %d %d %s" % (cap, size, kind) + (" " + cmpk if cmpk else "")] + ops, {"kind": "ht"})
+def _ht_case(name, cap, size, kind, ops, cmpk=None, const=False):
+    return V.Case(name, ["ht %d %d %s" % (cap, size, kind) + (" " + cmpk if cmpk else "") + (" const" if const else "")] + ops,
+                  {"kind": "ht"})
 
 
-def _rand_ht(rng, name, cap, size, kind, R, nops):
+def _rand_ht(rng, name, cap, size, kind, R, nops, fail=False):
     ops, vi = [], 0
     keys = list(range(-R // 3, R - R // 3))
     if kind in ("id", "mul", "low"):
@@ -325,6 +346,8 @@ def _rand_ht(rng, name, cap, size, kind, R, nops):
         c = rng.below(100)
         if c < 45:
             vi += 1
+            if fail and cap == 0 and rng.chance(1, 4):
+                ops.append("failat 1")
             ops.append("put %d %d" % (k, 500000 + vi))
         elif c < 75:
             ops.append("rem %d%s" % (k, _flags(rng)))
@@ -339,18 +362,42 @@ def _rand_ht(rng, name, cap, size, kind, R, nops):
         else:
             ops.append("dump")
     ops.append("dump")
-    return _ht_case(name, cap, size, kind, ops, rng.choice(CMPS + [None, None]))
+    return _ht_case(name, cap, size, kind, ops, rng.choice(CMPS + [None, None]), const=(fail and cap > 0))
 
 
 def _hex(bs):
     return "".join("%02x" % b for b in bs) if bs else "-"
 
 
-def _trie_case(name, cap, ops):
-    return V.Case(name, ["trie %d" % cap] + ops, {"kind": "trie"})
+def _trie_case(name, cap, ops, const=False):
+    return V.Case(name, ["trie %d" % cap + (" const" if const else "")] + ops, {"kind": "trie"})
 
 
-def _rand_trie(rng, name, cap, alphabet, maxlen, nops):
+def _trie_alloc_family(rng, name, L, j, pool, alpha):
+    """a key that needs L new nodes below a stored prefix; the allocation of the j-th of them fails (malloc switch,
+    or a constant-size pool with exactly j-1 nodes left); then other keys are inserted (they would get nodes
+    released by a roll-back), every prefix and the crossed-over keys are looked up, removals, a retry"""
+    pre = tuple(rng.choice(alpha) for _ in range(2))
+    tail = tuple(rng.shuffle(alpha)[:L]) if len(alpha) >= L else tuple(rng.choice(alpha) for _ in range(L))
+    key = pre + tail
+    other = tuple(b for b in rng.shuffle(alpha) if b not in (pre[0],))[:1] or (0x72,)
+    q = rng.choice(alpha)
+    ops = ["ins %s 1" % _hex(pre)]
+    if not pool:
+        ops.append("failat %d" % j)
+    ops.append("ins %s 2" % _hex(key))
+    ops += ["find %s" % _hex(key[:n]) for n in range(1, len(key) + 1)]
+    ops += ["ins %s 3" % _hex(other), "find %s" % _hex(other)]
+    ops += ["find %s" % _hex(key[:n]) for n in range(2, len(key) + 1)]
+    part = key[:2 + max(0, j - 1)]
+    ops += ["ins %s 4" % _hex(part + (q,)), "find %s" % _hex(other + (q,)), "find %s" % _hex(part + (q,)),
+            "rem %s" % _hex(part + (q,)), "find %s" % _hex(other + (q,)), "find %s" % _hex(other),
+            "ins %s 5" % _hex(other + (q,)), "find %s" % _hex(part + (q,)), "find %s" % _hex(pre),
+            "ins %s 6" % _hex(key), "find %s" % _hex(key), "rem %s" % _hex(pre), "find %s" % _hex(key), "dump"]
+    return _trie_case(name, (2 + j - 1) if pool else 0, ops, const=pool)
+
+
+def _rand_trie(rng, name, cap, alphabet, maxlen, nops, fail=False):
     ops, vi = [], 0
     pool = []
 
@@ -368,6 +415,8 @@ def _rand_trie(rng, name, cap, alphabet, maxlen, nops):
         pool.append(k)
         if c < 45:
             vi += 1
+            if fail and cap == 0 and rng.chance(1, 4):
+                ops.append("failat %d" % rng.range(1, 4))
             ops.append("ins %s %d" % (_hex(k), 700000 + vi))
         elif c < 70:
             ops.append("rem %s%s" % (_hex(k), _flags(rng, 1)))
@@ -376,7 +425,7 @@ def _rand_trie(rng, name, cap, alphabet, maxlen, nops):
         else:
             ops.append("dump")
     ops.append("dump")
-    return _trie_case(name, cap, ops)
+    return _trie_case(name, cap, ops, const=(fail and cap > 0))
 
 
 ASCII = [0x61, 0x62, 0x63, 0x2f, 0x41]
@@ -412,6 +461,18 @@ def corpus_cases(ctx):
         _trie_case("corpus-trie-high-bytes", 0, ["ins 80 1", "ins ff 2", "ins c3a9 3", "ins 7f80 4", "find 80", "find ff",
                                                  "find c3a9", "find c3", "rem ff", "find ff", "dump"]),
         _trie_case("corpus-trie-high-bytes-pool", 2, ["ins e4b8ad 1", "find e4b8ad", "ins e4b8 2", "rem e4b8ad", "dump"]),
+        # allocation failure in the middle of a key: the third new node of "abxyz" (pool of 4 nodes that cannot grow /
+        # malloc switch); the structure must go on answering like the map
+        _trie_case("corpus-trie-alloc-fail-pool", 4, ["ins 6162 1", "ins 616278797a 2", "find 616278", "ins 72 3", "find 616278",
+                                                      "find 72", "ins 61627871 4", "find 7271", "rem 61627871", "find 7271",
+                                                      "find 6162", "dump"], const=True),
+        _trie_case("corpus-trie-alloc-fail-malloc", 0, ["ins 6162 1", "failat 3", "ins 616278797a 2", "find 616278", "ins 72 3",
+                                                        "find 616278", "find 72", "ins 61627871 4", "find 7271", "rem 61627871",
+                                                        "find 7271", "ins 616278797a 5", "find 616278797a", "dump"]),
+        _avl_case("corpus-avl-alloc-fail", 2, ["ins 1 1", "ins 2 2", "ins 3 3", "find 3", "ins 2 9", "rem 1", "ins 3 4", "find 3",
+                                               "ins 1 5", "find 1"], const=True),
+        _ht_case("corpus-ht-alloc-fail", 0, 8, "zero", ["put 1 1", "failat 1", "put 2 2", "find 2", "put 2 3", "failat 1", "put 1 9",
+                                                        "find 1", "dump"]),
         # NULL free callbacks (borrowed data): the association must go all the same
         _trie_case("corpus-trie-null-callback", 0, ["ins 6162 1", "ins 61 2", "rem 61 0", "find 61", "rem 61 0", "rem 6162 1",
                                                     "find 6162", "ins 61 3", "rem 61", "dump"]),
@@ -488,6 +549,26 @@ def generate(rng, tier):
         cases.append(_avl_case("avl-asc-%d" % N, 0, asc + ["rem %d" % k for k in range(N)]))
         cases.append(_avl_case("avl-asc-desc-%d" % N, 4, asc + ["rem %d" % k for k in range(N - 1, -1, -1)]))
         cases.append(_avl_case("avl-desc-mid-%d" % N, 0, desc + ["rem %d" % (k + 1) for k in mid]))
+    # --- allocation failure: trie, the j-th new node of a key with L new nodes, j = 1..L, by the malloc switch and by a
+    #     constant-size pool with j-1 nodes left; tree and table: pools of 1..6 nodes that cannot grow, malloc switch
+    for L in range(1, 7):
+        for j in range(1, L + 1):
+            for pool in (False, True):
+                for rep_ in range(2 if quick else 6):
+                    alpha = ASCII + [0x78, 0x79, 0x7a, 0x71, 0x72] if rep_ % 2 == 0 else EDGE + [0x31, 0x32, 0x33]
+                    cases.append(_trie_alloc_family(rng, "trie-alloc-L%d-j%d-%s-%d" % (L, j, "pool" if pool else "malloc", rep_),
+                                                    L, j, pool, alpha))
+    for i in range(120 if quick else 1200):
+        cap = (0, 0, 1, 2, 3, 4, 6, 9)[i % 8]
+        which = i % 3
+        if which == 0:
+            cases.append(_rand_avl(rng, "avl-alloc-%d" % i, rng.choice([4, 8, 12, 20]), rng.range(12, 90), cap, fail=True))
+        elif which == 1:
+            size, kind = rng.choice([(8, "zero"), (8, "low"), (8, "id"), (11, "mul")])
+            cases.append(_rand_ht(rng, "ht-alloc-%d" % i, cap, size, kind, rng.choice([4, 8, 16]), rng.range(12, 90), fail=True))
+        else:
+            alpha = rng.shuffle(EDGE + ASCII)[:rng.range(2, 4)]
+            cases.append(_rand_trie(rng, "trie-alloc-rnd-%d" % i, cap * 2, alpha, rng.range(2, 6), rng.range(10, 70), fail=True))
     # --- AVL: large trees (hundreds of nodes in quick, >= 3000 in thorough), quiet operations + periodic full walk
     for i, N in enumerate((300, 450, 640) if quick else (300, 640, 1500, 3100, 5000)):
         cases.append(_big_avl(rng, "avl-big-%d" % N, N, (0, 4, 64)[i % 3]))
@@ -540,6 +621,10 @@ def search(rng, diverging, tier):
     for i in range(400):
         alpha = rng.shuffle(EDGE + ASCII)[:3]
         out.append(_rand_trie(rng, "search-trie-%d" % i, rng.choice([0, 2]), alpha, 3, rng.range(6, 50)))
+    for i in range(300):
+        alpha = rng.shuffle(EDGE + ASCII)[:3]
+        out.append(_rand_trie(rng, "search-trie-alloc-%d" % i, rng.choice([0, 3, 5, 8]), alpha, 5, rng.range(8, 50), fail=True))
+        out.append(_rand_avl(rng, "search-avl-alloc-%d" % i, 8, rng.range(8, 40), rng.choice([0, 2, 3]), fail=True))
     return out
 
 
@@ -617,6 +702,24 @@ def monitor(case, lines):
     kind = head[0]
     ref = {}
     i = 1
+    # allocation failure may be injected: the node pool cannot grow (header word const) or the malloc switch is
+    # set for the next insert (failat j).  Then -- and only then -- an insert of a new key may report failure;
+    # whichever it reports, the structure must afterwards answer like the map that follows the reports.
+    is_const = "const" in head[1:]
+    may_fail = [False]
+
+    def ins_result(tag, k, v, got):
+        """-> (error | None); updates ref according to what the implementation reported"""
+        inj = is_const or may_fail[0]
+        may_fail[0] = False
+        dup = (kind != "trie") and k in ref
+        if got == tag + " 1" and not dup:
+            ref[k] = v
+            return None
+        if got == tag + " 0" and (dup or inj):
+            return None
+        want = tag + (" 0" if dup else " 1")
+        return "implementation answered %r, a map gives %r%s" % (got, want, " (or a reported allocation failure)" if inj else "")
 
     def tree_lines(what):
         tl = lines[i] if i < len(lines) else ""
@@ -638,6 +741,9 @@ def monitor(case, lines):
     for n, op in enumerate(case.lines[1:], 1):
         w = op.split()
         what = "op %d (%s)" % (n, op)
+        if w[0] == "failat":
+            may_fail[0] = True
+            continue
         if kind == "avl":
             if w[0] == "check":
                 e = tree_lines(what)
@@ -649,8 +755,10 @@ def monitor(case, lines):
             quiet = w[0] in ("insq", "remq")
             own = None
             if w[0] in ("ins", "insq"):
-                want = "ins 0" if k in ref else "ins 1"
-                ref.setdefault(k, int(w[2]))
+                e = ins_result("ins", k, int(w[2]), lines[i] if i < len(lines) else None)
+                if e:
+                    return "%s: %s" % (what, e)
+                want = lines[i]
             elif w[0] == "find":
                 want = "find %s" % (ref[k] if k in ref else "none")
             else:
@@ -697,8 +805,10 @@ def monitor(case, lines):
             else:
                 k = int(w[1])
                 if w[0] == "put":
-                    want = "put 0" if k in ref else "put 1"
-                    ref.setdefault(k, int(w[2]))
+                    e = ins_result("put", k, int(w[2]), lines[i] if i < len(lines) else None)
+                    if e:
+                        return "%s: %s" % (what, e)
+                    want = lines[i]
                 elif w[0] == "find":
                     want = "find %s" % (ref[k] if k in ref else "none")
                 else:
@@ -735,8 +845,9 @@ def monitor(case, lines):
             else:
                 k = w[1]
                 if w[0] == "ins":
-                    ref[k] = int(w[2])
-                    e = _expect(lines, i, "ins 1", what)
+                    e = ins_result("ins", k, int(w[2]), lines[i] if i < len(lines) else None)
+                    if e:
+                        e = "%s: %s" % (what, e)
                 elif w[0] == "find":
                     e = _expect(lines, i, "find %s" % (ref[k] if k in ref else "none"), what)
                 else:
@@ -782,8 +893,12 @@ def tally(dist, case, lines):
     ck = head[2] if (kind == "avl" and len(head) > 2) else (head[4] if (kind == "ht" and len(head) > 4) else "sgn")
     if kind != "trie":
         dist["cmp_" + ck] = dist.get("cmp_" + ck, 0) + 1
+    if "const" in head[1:]:
+        dist["cases_with_constant_size_pool"] = dist.get("cases_with_constant_size_pool", 0) + 1
     for op in case.lines[1:]:
         ww = op.split()
+        if ww[0] == "failat":
+            dist["malloc_failures_armed"] = dist.get("malloc_failures_armed", 0) + 1
         key = "%s_%s" % (kind, ww[0])
         dist[key] = dist.get(key, 0) + 1
         if ww[0] in ("rem", "remq", "clear") and "0" in ww[(1 if ww[0] == "clear" else 2):]:
